@@ -385,3 +385,36 @@ func TestWitness_C20_NextAfterClose(t *testing.T) {
 		t.Fatal("world locked")
 	}
 }
+
+// C20: after a Next that panicked inside the archetype walk (here: an unsafe query with a relation
+// target for a component one of the archetypes lacks) the query has no current table any more:
+// Entity() panics in the default build exactly as it does with ark_debug (it used to return the
+// last entity of the previous table in the default build only).
+func TestWitness_C20_EntityAfterFailedNext(t *testing.T) {
+	w := ecs.NewWorld(1, 1)
+	idA := ecs.ComponentID[compA](w)
+	idR := ecs.ComponentID[rel1](w)
+	idS := ecs.ComponentID[rel2](w)
+	_ = idA
+	u := w.Unsafe()
+	a := w.NewEntity()
+	b := w.NewEntity()
+	u.NewEntityRel([]ecs.ID{idR}, ecs.RelID(idR, a))
+	u.NewEntityRel([]ecs.ID{idS}, ecs.RelID(idS, a))
+	q := ecs.NewUnsafeFilter(w).Query(ecs.RelID(idR, b))
+	if !q.Next() || q.Entity() != a {
+		t.Fatal("expected the first plain entity")
+	}
+	if !q.Next() || q.Entity() != b {
+		t.Fatal("expected the second plain entity")
+	}
+	// archetype {R}: no table for target b; archetype {S}: the relation names a component it lacks
+	mustPanic(t, "Next reaching the archetype that lacks the relation component", func() { q.Next() })
+	mustPanic(t, "Entity after the failed Next", func() { _ = q.Entity() })
+	if q.Next() {
+		t.Fatal("Next after the failed Next must finish the query")
+	}
+	if w.IsLocked() {
+		t.Fatal("world locked")
+	}
+}
